@@ -88,6 +88,11 @@ WOPNFile *WOPN_Init(uint16_t melodic_banks, uint16_t percussive_banks)
 
     file->banks_count_melodic = (melodic_banks != 0) ? melodic_banks : 1;
     file->banks_melodic = (WOPNBank*)calloc(file->banks_count_melodic, sizeof(WOPNBank));
+    if(!file->banks_melodic)
+    {
+        WOPN_Free(file);
+        return NULL;
+    }
 
     if(melodic_banks == 0)
     {
@@ -98,6 +103,11 @@ WOPNFile *WOPN_Init(uint16_t melodic_banks, uint16_t percussive_banks)
 
     file->banks_count_percussion = (percussive_banks != 0) ? percussive_banks : 1;
     file->banks_percussive = (WOPNBank*)calloc(file->banks_count_percussion, sizeof(WOPNBank));
+    if(!file->banks_percussive)
+    {
+        WOPN_Free(file);
+        return NULL;
+    }
 
     if(percussive_banks == 0)
     {
@@ -297,6 +307,16 @@ WOPNFile *WOPN_LoadBankFromMem(void *mem, size_t length, int *error)
         count_melodic_banks = toUint16BE(head);
         count_percussive_banks = toUint16BE(head + 2);
         GO_FORWARD(5);
+
+        {/* The announced banks must be in the file: refuse before allocating them */
+            size_t bank_size = (size_t)128 * ((version > 1) ? WOPN_INST_SIZE_V2 : WOPN_INST_SIZE_V1) +
+                               ((version >= 2) ? 34 : 0);
+            if(length / bank_size < (size_t)count_melodic_banks + (size_t)count_percussive_banks)
+            {
+                SET_ERROR(WOPN_ERR_UNEXPECTED_ENDING);
+                return NULL;
+            }
+        }
 
         outFile = WOPN_Init(count_melodic_banks, count_percussive_banks);
         if(!outFile)
